@@ -286,42 +286,9 @@ theorem drag_outside_iff (cfg : Cfg) (fuel : Nat) (st : St) (ev : Ev) (handled :
 theorem hidden_never (cfg : Cfg) (hc : cfg.shown = true) (fuel : Nat) (st st' : St) (ev : Ev) (r : Bool)
     (h : onTermKey cfg fuel st ev = Out.ok (st', r) ∨ onTermMouse cfg fuel st ev = Out.ok (st', r)) :
     ∃ new, st'.log = new ++ st.log ∧ ∀ k w e b, LogItem.offer k w e b ∈ new → b = true := by
-  have key : Ext ShownOffer st st' := by
-    rcases h with h | h
-    · exact handleKey_ext (shownOffer_routed cfg hc .key ev) fuel st 0 st' r h
-    · obtain ⟨st0, st1, st2, handled, st3, st4, h0, h1, h2, h3, h4, h5, _⟩ := onTermMouse_ok h
-      have hq : Quiet ShownOffer := (shownOffer_routed cfg hc .mouse ev).toQuiet
-      have hr : ∀ e, Routed cfg .mouse e ShownOffer := shownOffer_routed cfg hc .mouse
-      have e1 : Ext ShownOffer st0 st1 := by
-        unfold dragPrelude at h1
-        by_cases c1 : ev.type = evPress
-        · simp only [c1, if_true, out_pure, Out.ok.injEq] at h1; subst h1; exact Ext.of_log rfl
-        · simp only [c1, if_false] at h1
-          by_cases c2 : (ev.type = evDrag && !st0.tree.root.mouseDragging) = true
-          · rw [if_pos c2] at h1
-            obtain ⟨⟨sa, src⟩, ha, h1⟩ := out_bind_eq_ok.1 h1
-            obtain ⟨sb, hb, h1⟩ := lift_bind_eq_ok.1 h1
-            simp only [out_pure, Out.ok.injEq] at h1; subst h1
-            exact ((handleMouse_ext (hr _) fuel _ _ _ _ _ (sameKind.rfl' _) ha).trans (dragSourceSet_ext hq hb)).trans
-              (Ext.of_log rfl)
-          · rw [if_neg c2] at h1
-            by_cases c3 : (ev.type = evRelease && st0.tree.root.mouseDragging) = true
-            · rw [if_pos c3] at h1
-              obtain ⟨⟨sa, dropped⟩, ha, h1⟩ := out_bind_eq_ok.1 h1
-              obtain ⟨sb, hb, h1⟩ := lift_bind_eq_ok.1 h1
-              obtain ⟨sc, hcc, h1⟩ := out_bind_eq_ok.1 h1
-              simp only [out_pure, Out.ok.injEq] at h1; subst h1
-              have e3 : Ext ShownOffer sb sc := by
-                unfold dragStop at hcc
-                cases hsrc : sb.tree.root.dragSource with
-                | none => simp only [hsrc, out_pure, Out.ok.injEq] at hcc; subst hcc; exact Ext.refl _ _
-                | some src => simp only [hsrc] at hcc; exact toDragSource_ext (fun _ _ => hr _) hcc
-              exact (((handleMouse_ext (hr _) fuel _ _ _ _ _ (sameKind.rfl' _) ha).trans (dropResult_ext hq hb)).trans e3).trans
-                (Ext.of_log rfl)
-            · rw [if_neg c3] at h1; simp only [out_pure, Out.ok.injEq] at h1; subst h1; exact Ext.refl _ _
-      exact ((((refWin_ext h0).trans e1).trans (handleMouse_ext (hr ev) fuel _ _ _ _ _ (sameKind.rfl' _) h2)).trans
-        (dragOutside_ext (fun _ _ => hr _) h3)).trans ((dropResult_ext hq h4).trans (unrefLogged_ext hq h5))
-  obtain ⟨new, hl, hp⟩ := key
+  have key : Ext ShownOffer st st' :=
+    onTerm_ext (shownOffer_routed cfg hc .key ev) (shownOffer_routed cfg hc .mouse) h
+  obtain ⟨⟨new, hl, hp⟩, _⟩ := key
   exact ⟨new, hl, fun k w e b hm => hp _ hm⟩
 
 /-- **drag_consistent (order and content of the first DRAG).**  Whatever the handlers do: in the log of a DRAG event
@@ -357,8 +324,8 @@ theorem drag_start_first (cfg : Cfg) (fuel : Nat) (st st' : St) (ev : Ev) (r : B
   have eD : Ext (Carries QD) st1 st' :=
     ((handleMouse_ext rD fuel _ _ _ _ _ (sameKind.rfl' _) h2).trans (dragOutside_ext rO h3)).trans
       ((dropResult_ext rD.toQuiet h4).trans (unrefLogged_ext rD.toQuiet h5))
-  obtain ⟨newS, hS, pS⟩ := eS
-  obtain ⟨newD, hD, pD⟩ := eD
+  obtain ⟨⟨newS, hS, pS⟩, _⟩ := eS
+  obtain ⟨⟨newD, hD, pD⟩, _⟩ := eD
   exact ⟨newS, newD, by rw [hD, hS, hlog0, List.append_assoc], pS, pD⟩
 
 /-- **drag_consistent (the release).**  Whatever the handlers do: in the log of a RELEASE received while a drag is in
@@ -404,9 +371,9 @@ theorem drag_drop_stop_order (cfg : Cfg) (fuel : Nat) (st st' : St) (ev : Ev) (r
   have eRel : Ext (Carries fun e => e.type = evRelease ∧ e.button = ev.button ∧ e.mod = ev.mod) st1 st' :=
     ((handleMouse_ext rRel fuel _ _ _ _ _ (sameKind.rfl' _) h2).trans eOut).trans
       ((dropResult_ext rRel.toQuiet h4).trans (unrefLogged_ext rRel.toQuiet h5))
-  obtain ⟨n1, l1, p1⟩ := eDrop
-  obtain ⟨n2, l2, p2⟩ := eStop
-  obtain ⟨n3, l3, p3⟩ := eRel
+  obtain ⟨⟨n1, l1, p1⟩, _⟩ := eDrop
+  obtain ⟨⟨n2, l2, p2⟩, _⟩ := eStop
+  obtain ⟨⟨n3, l3, p3⟩, _⟩ := eRel
   exact ⟨n1, n2, n3, by rw [l3, l2, l1, hlog0]; simp only [List.append_assoc], p1, p2, p3⟩
 
 /-! ### mutations from inside handlers
